@@ -18,6 +18,7 @@ import (
 	"sync"
 	"time"
 
+	"github.com/hprose/hprose-golang/v3/internal/verifhook"
 	"github.com/hprose/hprose-golang/v3/rpc/core"
 	cmap "github.com/orcaman/concurrent-map"
 )
@@ -86,6 +87,9 @@ func (b *Broker) send(ctx context.Context, id string, responder chan map[string]
 	if len(result) == 0 {
 		return false
 	}
+	if verifhook.On {
+		verifhook.Gate("push.sendTaken", id)
+	}
 	responder <- result
 	go b.doHeartBeat(ctx, id)
 	return true
@@ -145,6 +149,9 @@ func (b *Broker) subscribe(ctx context.Context, topic string) bool {
 func (b *Broker) response(ctx context.Context, id string) {
 	if responder, ok := b.responders.Pop(id); ok {
 		responder := responder.(chan map[string][]Message)
+		if verifhook.On {
+			verifhook.Gate("push.responsePopped", id)
+		}
 		if !b.send(ctx, id, responder) {
 			if !b.responders.SetIfAbsent(id, responder) {
 				responder <- nil
@@ -183,6 +190,9 @@ func (b *Broker) message(ctx context.Context) map[string][]Message {
 	}
 	responder := make(chan map[string][]Message, 1)
 	if !b.send(ctx, id, responder) {
+		if verifhook.On {
+			verifhook.Gate("push.pollEmpty", id)
+		}
 		b.responders.Upsert(id, responder, func(exist bool, valueInMap interface{}, newValue interface{}) interface{} {
 			if exist {
 				valueInMap.(chan map[string][]Message) <- nil
@@ -194,6 +204,9 @@ func (b *Broker) message(ctx context.Context) map[string][]Message {
 			defer cancel()
 			select {
 			case <-ctx.Done():
+				if verifhook.On {
+					verifhook.Gate("push.pollTimeout", id)
+				}
 				go b.doHeartBeat(context.Background(), id)
 				return map[string][]Message{}
 			case result := <-responder:
